@@ -3,7 +3,7 @@ import asyncio
 import random
 import struct
 
-from .. import aio, bus, use_repo
+from .. import aio, bus, frames, use_repo
 from ..core import Result
 use_repo()
 
@@ -41,10 +41,13 @@ def eeprom_image(serial):
 def gen_case(rng):
     mode = rng.choice(["initialize", "scan", "scan+initialize",
                        "scan||initialize", "scan||initialize",
-                       "two-masters"])
+                       "two-masters", "cancelled-scan+scan",
+                       "reinit-after-insert"])
     n = rng.randint(2, 40)
     if mode == "scan||initialize":
         n = rng.randint(2, 6)      # few addresses: collisions are likely
+    if mode in ("cancelled-scan+scan", "reinit-after-insert"):
+        n = rng.randint(2, 8)
     lo = rng.choice([1, 100, 1000, 30000])
     slack = rng.choice([0, 1, 2, 5, 20])
     # scan followed by initialize hands out up to 2n addresses; the range
@@ -74,7 +77,9 @@ def gen_case(rng):
                 faults=rng.choice([0, 0, 0, 0.02, 0.06]),
                 faultseed=rng.getrandbits(32),
                 serials=[rng.choice([0, rng.getrandbits(24) + 1])
-                         for _ in range(n)])
+                         for _ in range(n)],
+                # loop iterations after which the first scan is cancelled
+                cancel_after=rng.randint(1, 400))
 
 
 def run_case(case):
@@ -87,16 +92,18 @@ def run_case(case):
         terms.append(t)
     b = bus.Bus(terms)
     writes = []        # (terminal index, address) in global order
-    for i, t in enumerate(terms):
+    def hook(i, t):
         orig = t.write
 
-        def w(addr, data, i=i, t=t, orig=orig):
-            before = t.station
+        def w(addr, data, t=t, orig=orig):
             orig(addr, data)
             if addr <= 0x10 < addr + len(data):
-                writes.append((i, t.station,
+                # (terminal index at that moment, address, everybody's)
+                writes.append((terms.index(t), t.station,
                                [x.station for x in terms]))
         t.write = w
+    for i, t in enumerate(terms):
+        hook(i, t)
     result = {}
 
     async def main(loop):
@@ -106,9 +113,21 @@ def run_case(case):
 
         frng = random.Random(case.get("faultseed", 0))
 
+        apwr = [0]
+        hooks = {}
+
         def policy(nf, data):
             k[0] += 1
             resp = b.process(data)
+            if hooks.get("on_apwr"):
+                try:
+                    dgs = frames.parse(data)[2]
+                except Exception:
+                    dgs = []
+                for d in dgs[1:]:
+                    if d.cmd == 2 and d.addr[1] == 0x10:
+                        apwr[0] += 1
+                        hooks["on_apwr"](apwr[0])
             if case.get("faults") and frng.random() < case["faults"] \
                     and len(resp) > 20:
                 resp = resp[:frng.randint(16, len(resp) - 1)]
@@ -170,6 +189,54 @@ def run_case(case):
             await asyncio.wait_for(asyncio.gather(
                 scan(), *[later(i, ts[i]) for i in pick]), 5000)
             return
+        if case["mode"] == "cancelled-scan+scan":
+            # an application time-out cancels a scan somewhere in the
+            # middle (requests may still be on the wire and take effect);
+            # the scan is then run again
+            task = asyncio.ensure_future(ec.scan_serial_numbers())
+            if case["cancel_after"] % 2:
+                # cancelled exactly while the reply to the k-th address
+                # assignment is on the wire
+                kth = 1 + case["cancel_after"] % n
+
+                def on_apwr(count):
+                    if count == kth and not task.done():
+                        loop.call_soon(task.cancel)
+                        result["cancelled_with_assignment_on_the_wire"] = 1
+                hooks["on_apwr"] = on_apwr
+                for _ in range(100000):
+                    if task.done():
+                        break
+                    await asyncio.sleep(0.0005)
+                hooks.clear()
+            else:
+                for _ in range(case["cancel_after"]):
+                    if task.done():
+                        break
+                    await asyncio.sleep(0)
+            result["first_scan_cancelled"] = not task.done()
+            task.cancel()
+            await asyncio.gather(task, return_exceptions=True)
+            await asyncio.sleep(0.05)      # what was on the wire lands
+            result["scan"] = await asyncio.wait_for(
+                ec.scan_serial_numbers(), 5000)
+            return
+        if case["mode"] == "reinit-after-insert":
+            # terminals are initialised, a new terminal is plugged in at
+            # the head of the segment (all positions shift), and the same
+            # Terminal objects are initialised again
+            ts = [Terminal(ec) for _ in range(n)]
+            first = [i for i in range(n) if (i + case["stagger"][0]) % 2]
+            first = first or [0]
+            await asyncio.wait_for(asyncio.gather(
+                *[ts[i].initialize(relative=-i) for i in first]), 5000)
+            new = bus.SimTerminal("Tnew", eeprom=eeprom_image(77),
+                                  station=0)
+            terms.insert(0, new)
+            hook(len(terms) - 1, new)
+            await asyncio.wait_for(asyncio.gather(
+                *[ts[i].initialize(relative=-i) for i in first]), 5000)
+            return
         if "scan" in case["mode"]:
             result["scan"] = await asyncio.wait_for(
                 ec.scan_serial_numbers(), 5000)
@@ -198,6 +265,11 @@ def check_case(case, res):
         res.inconc(f"wall-clock watchdog fired for {case}")
         return
     res.count("truncated_replies", result.get("truncated", 0))
+    if case["mode"] == "cancelled-scan+scan" and \
+            result.get("first_scan_cancelled"):
+        res.count("scans_cancelled_in_the_middle")
+        res.count("scans_cancelled_with_an_assignment_on_the_wire",
+                  result.get("cancelled_with_assignment_on_the_wire", 0))
     if "error" in result and case["mode"] == "scan||initialize":
         # the scan may address a terminal whose address an initialisation
         # has just changed: the statement does not promise success, only
@@ -221,7 +293,8 @@ def check_case(case, res):
         if addr in others:
             res.violation("unexplained:duplicate-address",
                           f"terminal {i} got address {addr} which terminal "
-                          f"{snapshot.index(addr)} already answers to",
+                          f"{[j for j, a in enumerate(snapshot) if a == addr and j != i][0]}"
+                          f" already answers to",
                           case=case)
             return
     final = [t.station for t in terms if t.station]
@@ -272,7 +345,7 @@ def run_shard(params):
 def finalize(res, tier, seed):
     c = res.counters
     for m in ("initialize", "scan", "scan+initialize", "scan||initialize",
-              "two-masters"):
+              "two-masters", "cancelled-scan+scan", "reinit-after-insert"):
         if not c.get(f"mode[{m}]"):
             res.inconc(f"mode {m} never ran")
 
